@@ -2,14 +2,13 @@
 """Robustness sweep: for every function a rule pack anchors by name (ix.func("...") in sa/rules/cNN.py),
 build a scratch copy of /repo in which all *local variables* of that function are renamed
 (behaviour-preserving), and require the pack's check to stay silent (exit 0).
-Usage: /venv/bin/python tools/alpha_check.py [C09 ...]   -> alpha_results.json"""
+Usage: /venv/bin/python -m sa.alpha [C09 ...]   -> alpha_results.json"""
 import ast, json, os, re, shutil, subprocess, sys, tempfile
 from concurrent.futures import ThreadPoolExecutor
 
 VERIF = os.path.dirname(os.path.dirname(os.path.abspath(__file__)))
-sys.path.insert(0, VERIF)
-from sa.index import REPO, get_index  # noqa: E402
-from sa.selftest import make_tree  # noqa: E402
+from .index import REPO, get_index  # noqa: E402
+from .selftest import make_tree  # noqa: E402
 
 
 def anchored() -> dict[str, list[str]]:
@@ -113,6 +112,19 @@ def run_one(args):
         return {"property": pid, "function": qual, "exit": p.returncode, "first": first}
     finally:
         shutil.rmtree(tmp, ignore_errors=True)
+
+
+def for_property(pid: str) -> dict:
+    """Alpha-rename sweep of the functions the property's pack anchors (recorded, not judged)."""
+    ix = get_index()
+    jobs = []
+    for q in anchored().get(pid, []):
+        v = variant(q, ix)
+        if v:
+            jobs.append((pid, q, v[0], v[1]))
+    with ThreadPoolExecutor(max_workers=12) as ex:
+        res = list(ex.map(run_one, jobs))
+    return {"alpha_renamed_functions_run": len(res), "alpha_renamed_functions_silent": sum(1 for r in res if r["exit"] == 0), "alpha_renamed_functions_not_silent": [f"{r['function']} (exit {r['exit']}): {r['first'][:120]}" for r in res if r["exit"] != 0]}
 
 
 def main():
